@@ -39,7 +39,7 @@ var numericKinds = []Kind{KInt, KInt16, KInt32, KInt64, KUint, KUint16, KUint32,
 
 func cfgC01(tier string) e1Cfg {
 	return e1Cfg{Prop: "C01", Kinds: allKinds, LateKinds: allKinds, KeyedPct: 20, LayoutPct: 60, Steps: steps(tier, 110, 400), Pool: "edge",
-		PNewCol: 3, Txn: baseTxn(), DumpEvery: map[string]int{"quick": 1, "thorough": 4}[tier], Oracles: oracleSet("values"), DensePct: 8}
+		PNewCol: 3, Txn: baseTxn(), DumpEvery: map[string]int{"quick": 1, "thorough": 4}[tier], Oracles: oracleSet("values"), DensePct: 6}
 }
 
 func cfgC02(tier string) e1Cfg {
@@ -47,7 +47,7 @@ func cfgC02(tier string) e1Cfg {
 	t.PAbort, t.PFailInsert, t.MaxLive, t.PInsert, t.MaxOps, t.SwallowPct = 35, 15, 70, 40, 6, 30
 	return e1Cfg{Prop: "C02", Kinds: []Kind{KInt, KInt16, KUint32, KFloat64, KBool, KString, KStringCat, KEnum, KRecordMerge}, KeyedPct: 35, LayoutPct: 15,
 		Steps: steps(tier, 90, 300), Pool: "edge", Twin: true, InFlight: true, NIdx: 2, NSorted: 1, Txn: t, DumpEvery: 1,
-		Oracles: oracleSet("rollback", "own-reads", "values", "live", "stream-rollback"), Caps: []int{1, 64, 65, 1000, 16385}, Interlope: true}
+		Oracles: oracleSet("rollback", "own-reads", "values", "live", "stream-rollback"), Caps: []int{1, 64, 65, 1000, 16385}, Interlope: true, PRestore: 2, TailPct: 60}
 }
 
 func cfgC03(tier string) e1Cfg {
@@ -73,16 +73,16 @@ func cfgC07(tier string) e1Cfg {
 
 func cfgC11(tier string) e1Cfg {
 	t := baseTxn()
-	t.PInsert, t.PDelete, t.PUpdate, t.InsertAllPct, t.PAbort, t.PFailInsert, t.MaxOps = 45, 35, 20, 40, 12, 10, 8
+	t.PInsert, t.PDelete, t.PUpdate, t.InsertAllPct, t.PAbort, t.PFailInsert, t.MaxOps, t.SwallowPct = 45, 35, 20, 40, 12, 10, 8, 30
 	return e1Cfg{Prop: "C11", Kinds: []Kind{KInt, KInt16, KUint64, KFloat32, KBool, KString, KStringCat, KEnum, KRecord, KRecordMerge, KInt64Mul}, KeyedPct: 15, LayoutPct: 70,
-		Steps: steps(tier, 130, 420), Pool: "edge", Txn: t, DumpEvery: 1, Oracles: oracleSet("live", "values"), DensePct: 10}
+		Steps: steps(tier, 130, 420), Pool: "edge", Txn: t, DumpEvery: 1, Oracles: oracleSet("live", "values"), DensePct: 7, Interlope: true}
 }
 
 func cfgC12(tier string) e1Cfg {
 	t := baseTxn()
-	t.PKeyOps, t.PInsert, t.PUpdate, t.PDelete, t.PAbort, t.MaxOps, t.MaxLive = 35, 25, 25, 15, 15, 6, 40
+	t.PKeyOps, t.PInsert, t.PUpdate, t.PDelete, t.PAbort, t.MaxOps, t.MaxLive, t.SwallowPct = 35, 25, 25, 15, 15, 6, 40, 35
 	return e1Cfg{Prop: "C12", Kinds: []Kind{KInt, KString, KBool}, KeyedPct: 100, LayoutPct: 12, Steps: steps(tier, 220, 700), Pool: "small", Txn: t, DumpEvery: 1,
-		Oracles: oracleSet("keys", "live"), Caps: []int{1, 64, 1000}, PRestore: 1}
+		Oracles: oracleSet("keys", "live"), Caps: []int{1, 64, 1000}, PRestore: 1, Interlope: true}
 }
 
 func cfgC16(tier string) e1Cfg {
@@ -110,7 +110,7 @@ type e1Prop struct {
 
 func init() {
 	props := []e1Prop{
-		{"C01", cfgC01, 3200, 48000, "one case = one seeded history (capacity, schema of all column kinds, optional dense-then-sparse layout over up to 3 blocks, ~110/400 transactions) executed in lock-step with the reference model; after every step every cell of every live row is read through Row and Txn typed readers and Row.Any and compared bit/byte-wise with the model; non-trivial = at least 3 committed transactions; distinct = distinct (final state hash, committed count, op count)",
+		{"C01", cfgC01, 1600, 40000, "one case = one seeded history (capacity, schema of all column kinds, optional dense-then-sparse layout over up to 3 blocks, ~110/400 transactions) executed in lock-step with the reference model; after every step every cell of every live row is read through Row and Txn typed readers and Row.Any and compared bit/byte-wise with the model; non-trivial = at least 3 committed transactions; distinct = distinct (final state hash, committed count, op count)",
 			map[string]int64{"txn_committed": 500, "dumps": 500}},
 		{"C02", cfgC02, 2400, 32000, "one case = one seeded history in which ~40% of the transactions end in an error (body error or failing row callback, after successful inserts/updates/deletes/key ops); after every rolled-back transaction the full dump (rows, values, indexes, keys, counts, sorted order) must equal the dump before it, nothing may reach the logger, and a twin collection that only ever ran the committed transactions must hand out the same insert offsets; inside transactions every write is followed by a read through the same transaction; every third transaction is observed from a second goroutine after each buffered operation (full dump, sometimes snapshot+restore); non-trivial = at least 3 committed transactions",
 			map[string]int64{"txn_rolled_back": 100, "inflight_observations": 100}},
@@ -120,7 +120,7 @@ func init() {
 			map[string]int64{"filter_chains": 500, "aggregates": 300}},
 		{"C07", cfgC07, 2400, 32000, "one case = one seeded history with snapshot->restore cycles into fresh collections of the same schema (same or different capacity); dump(restored) must equal dump(original) (rows, offsets, values of all kinds, indexes, sorted order, key lookups, counts) and the history then continues on the restored collection under the value/live/key oracles; non-trivial = at least 3 committed transactions",
 			map[string]int64{"restores": 60, "restored_rows": 1000}},
-		{"C11", cfgC11, 3200, 48000, "one case = one seeded insert/delete-heavy history over fragmented fill patterns (dense fill then sparse survivors around word and block boundaries); every offset returned by an insert is checked against the model's live set and the transaction's own reservations, after every step Range/Count/Txn.Count must equal the live set and every cell of a new row must be what its insert stored (anything else is stale data); non-trivial = at least 3 committed transactions",
+		{"C11", cfgC11, 1600, 40000, "one case = one seeded insert/delete-heavy history over fragmented fill patterns (dense fill then sparse survivors around word and block boundaries); every offset returned by an insert is checked against the model's live set and the transaction's own reservations, after every step Range/Count/Txn.Count must equal the live set and every cell of a new row must be what its insert stored (anything else is stale data); non-trivial = at least 3 committed transactions",
 			map[string]int64{"txn_committed": 500}},
 		{"C12", cfgC12, 3200, 48000, "one case = one seeded history of InsertKey/UpsertKey/QueryKey/DeleteKey/SetKey over a 10-key alphabet; every return value is compared with the model's key table at issue time and after every step every key of the alphabet is looked up and rows are grouped by key; non-trivial = at least 3 committed transactions",
 			map[string]int64{"key_lookups": 2000}},
